@@ -278,7 +278,10 @@ def history_guard(d, par):
     while True:
         st, _, fit = run_iter(d, dict(par, nclip=j))
         if st != 'ok':
-            return None
+            # a later stage raised (the points left by an earlier clipping step cannot be fitted): what was
+            # learnt about the earlier stages still stands - in particular a clipping decision taken on
+            # residuals at rounding level (an exactly fitting data set) is a near-tie
+            return None if j == 0 else {'near': near, 'branch': bmarg, 'cond': cond}
         mask = np.array(fit['fitmask'], dtype=bool)
         if par['geom'] in ('rscale', 'rshift'):
             bmarg = min(bmarg, branch_margin(d, mask))
@@ -544,12 +547,14 @@ def gen_rels(rng, prob):
         else:
             rels.append(({'kind': 'sim', 'A': IDENT, 'B': Q3, 'label': 'uv-alone' + ('-flip' if flip3 else '')}, need))
     if d['wxy'] is not None or d['wuv'] is not None:
-        c = rng.choice([2.0, 0.5, 0.25, 3.7, 1e-3, 1e3, rng.uniform(0.1, 10)]) if not exact else rng.choice([2.0, 0.5, 4.0])
+        # (also factors that take the sum of the weights far from 1: an absolute threshold anywhere would show)
+        c = rng.choice([2.0, 0.5, 0.25, 3.7, 1e-3, 1e3, rng.uniform(0.1, 10), 1e-12, 1e12, 2.0 ** -70, 2.0 ** 60]) if not exact \
+            else rng.choice([2.0, 0.5, 4.0, 2.0 ** -70, 2.0 ** 60])
         rels.append(({'kind': 'wscale', 'c': c}, None))
     else:
         mode = rng.choice([1, 2, 3])
-        cx = rng.choice([1.0, 2.0, 0.5, 3.3]) if mode in (1, 3) else None
-        cu = rng.choice([1.0, 4.0, 0.25, 0.7]) if mode in (2, 3) else None
+        cx = rng.choice([1.0, 2.0, 0.5, 3.3, 1e-12, 2.0 ** 50]) if mode in (1, 3) else None
+        cu = rng.choice([1.0, 4.0, 0.25, 0.7, 2.0 ** -60, 1e9]) if mode in (2, 3) else None
         rels.append(({'kind': 'uniform', 'cx': cx, 'cu': cu}, None))
     c2 = [rng.uniform(-4, 4) * S, rng.uniform(-4, 4) * S] if not exact else [float(rng.randint(-40, 40)), float(rng.randint(-40, 40))]
     rels.append(({'kind': 'center', 'c': c2}, None))
@@ -754,7 +759,8 @@ def check_problem(ctx, prob, rels, lines, pending):
         check_must(ctx, prob, rels, lines, pending)
     # ---- iter_linear_fit ------------------------------------------------
     st, err, fit = run_iter(d, par)
-    guard = history_guard(d, par) if st == 'ok' else None
+    # (also when the run raised: a raise after a clipping step taken on rounding-level residuals is a near-tie)
+    guard = history_guard(d, par)
     skip_all = False
     if st == 'ok' and guard is None:
         skip_all = True
